@@ -229,6 +229,9 @@ impl Context {
 
         let mut prev = task.node().clone();
         let parent = task.node().clone();
+        // a task that runs again (after a back) builds its nodes afresh:
+        // what an earlier run built is not part of this run
+        parent.clear_nodes();
         let mut acts = acts.to_owned();
         for (index, act) in acts.iter_mut().enumerate() {
             dyn_build_act(
